@@ -26,6 +26,13 @@
  *                            the fix — GC_Rem_Ptr(NULL) matches a struck-off slot of the pending list and runs
  *                            dealloc(destruct(NULL)) — is an ordinary violation: X sig=reg-exception, `O <op> abort`, and the run
  *                            of the op file ends there (the collector is left mid-sweep)
+ *   killraise <a>            the destructor of <a> leaves by an exception (IOError) after its kills — what File_Del does when fclose
+ *                            fails.  Under an explicit del / del_root / del_raw outside a collection the exception unwinds through
+ *                            GC_Rem_Ptr / GC_Rem (the object is unregistered, not deallocated; GC_Resize_Less and the threshold update
+ *                            are skipped; an enclosing destructor stops, its object is not deallocated either): `O <op> raised …`,
+ *                            the registry stays exact (theorem C17_rem_raising) — generated.  Inside the release loop of GC_Sweep
+ *                            (sweep / collect / tnewx) the loop is left and the pending list is neither freed nor reset: known
+ *                            finding KF-C17-dtor-raise (X sig=reg-dtor-raise; the O line then carries pend=<slots>) — witness only
  *   stalemark <ids…>         a mark phase that an exception left: GC_Mark_Item on each listed object and no sweep — the mark bits
  *                            stay.  sweep / sweepmod (GC_Sweep on the bits as they are) keep such an object; collect / tnewx
  *                            (the real GC_Mark) must start from clear bits (GC_Unmark, fix d8f0c4f): checked from inside GC_Mark
@@ -34,14 +41,17 @@
  *                            depend on what the stack scan finds): a stale bit still set there is X sig=reg-stale-mark, and
  *                            the object is then kept marked, as the code keeps it (ledger: released).  A rehash drops the bits.
  *   dealloc <id>             dealloc / dealloc_root (src/Alloc.c) of the object: the collector is not told.  For a registered
- *                            object this is known finding KF-C17-dealloc-stale (X sig=reg-dealloc-stale for every consequence
+ *                            object (also: `delrawm <id>`, del_raw of a registered object — del_raw is dealloc(destruct(self)) without
+ *                            GC_Rem; plain `delraw` of a registered object stays a bad op)
+ *                            this is known finding KF-C17-dealloc-stale (X sig=reg-dealloc-stale for every consequence
  *                            the oracle sees: stale member, count, root flag after the address is allocated again)
  *   strict                   from here on the oracle's ledger is the one of the property text: a managed allocation while the
  *                            collector is stopped counts as managed, a del while it is stopped as deleted (F23; what the
  *                            registry then gets wrong is reported as X sig=reg-stopped, known finding KF-C17-stopped).
  *                            Without `strict` the ledger follows the code in the stopped window (theorem C17_registry_exact).
  *   stop | start             stop / start the collector
- * `dealloc` of a registered object and `strict` are never generated: witnesses only (corpus/kf_c17_*).
+ * `dealloc` / `delrawm` (of a registered object), `strict`, and a `killraise` destructor left armed for a collection are never
+ * generated: witnesses only (corpus/kf_c17_*).
  *   dumpevery <k>            print the slot array (and run the oracle) after every k-th op only
  *   ideal <lo> <hi>          GC_Ideal_Size(n) for lo <= n < hi as change points
  * After every op:  O <op> <result> fin=<ids deallocated, in order> | n= ni= mi= lo= hi= run= e=<idx:home:id:root:marked,…>
@@ -75,6 +85,9 @@ static int64_t id_u[MAXID]; static char id_known[MAXID]; static char state[MAXID
 static int ndealloc[MAXID], expdealloc[MAXID];
 static int* kills[MAXID]; static int nkills[MAXID];
 static char killnull[MAXID];          /* destructor also calls del(NULL) */
+static char raises[MAXID];            /* destructor leaves by an exception, after its kills */
+static char raise_touched[MAXID];     /* what the ledger and the collector disagreed on right after a release loop was left by an exception */
+static size_t n_thrown = 0, n_thrown_in_sweep = 0; static int raise_taint = 0, op_raised = 0;
 static char stale[MAXID];             /* dealloc'ed while registered (KF-C17-dealloc-stale) */
 static char stopped_touched[MAXID];   /* allocated / deleted while stopped under `strict` (KF-C17-stopped) */
 static char stalemarked[MAXID];       /* `stalemark` set the mark bit of this (managed) object and nothing has cleared it since */
@@ -123,6 +136,11 @@ static void Probe_Destruct(var self) {
   if (!kills_enabled) return;
   for (int k = 0; k < nkills[id]; k++) del(addr_of(kills[id][k]));
   if (killnull[id]) { if (the_gc && the_gc->freenum) n_null_in_sweep++; del(NULL); }
+  if (raises[id]) {
+    n_thrown++;
+    if (the_gc && the_gc->freenum) { n_thrown_in_sweep++; raise_taint = 1; }   /* the release loop of GC_Sweep is running (or its list was left behind) */
+    throw(IOError, "probe %i: destructor raises", $I(id));
+  }
 }
 
 /* Mark instance of the probe type: called by GC_Recurse.  While armed (the real GC_Mark of `collect` / `tnewx` with stale
@@ -204,7 +222,7 @@ static void oracle(struct GC* gc, size_t line, const char* op) {
     if (p < ADDR0 || (p - ADDR0) % 8) { X("sig=reg-inv line=%zu what=after %s foreign pointer in the registry", line, op); n_x++; continue; }
     int id = (int)((struct Probe*)e->ptr)->id;
     if (id < 0 || id > maxid || !id_known[id] || addr_of(id) != e->ptr) { X("sig=reg-inv line=%zu what=after %s entry %zu is not a known object", line, op, i); n_x++; continue; }
-    const char* ksig = stale[id] ? "reg-dealloc-stale" : stopped_touched[id] ? "reg-stopped" : NULL;
+    const char* ksig = stale[id] ? "reg-dealloc-stale" : stopped_touched[id] ? "reg-stopped" : raise_touched[id] ? "reg-dtor-raise" : NULL;
     if (stamp[id] == stampgen) { X("sig=%s line=%zu what=after %s object %d is recorded twice", ksig ? ksig : "reg-dup", line, op, id); n_x++; }
     stamp[id] = stampgen;
     if (state[id] != MANAGED) { X("sig=%s line=%zu what=after %s object %d (ledger state %d) is in the registry", ksig ? ksig : "reg-mem", line, op, id, state[id]); n_x++; }
@@ -214,12 +232,15 @@ static void oracle(struct GC* gc, size_t line, const char* op) {
     if (!id_known[id]) continue;
     if (state[id] == MANAGED) managed++;
     int m = mem(current(GC), addr_of(id)) ? 1 : 0;
-    if (m != (state[id] == MANAGED)) { X("sig=%s line=%zu what=after %s mem(object %d) = %d, ledger state %d", stale[id] ? "reg-dealloc-stale" : stopped_touched[id] ? "reg-stopped" : "reg-mem", line, op, id, m, state[id]); n_x++; }
-    if (ndealloc[id] != expdealloc[id]) { X("sig=%s line=%zu what=after %s object %d deallocated %d times, expected %d", stale[id] ? "reg-dealloc-stale" : stopped_touched[id] ? "reg-stopped" : "reg-final", line, op, id, ndealloc[id], expdealloc[id]); n_x++; expdealloc[id] = ndealloc[id]; }
+    if (m != (state[id] == MANAGED)) { X("sig=%s line=%zu what=after %s mem(object %d) = %d, ledger state %d", stale[id] ? "reg-dealloc-stale" : stopped_touched[id] ? "reg-stopped" : raise_touched[id] ? "reg-dtor-raise" : "reg-mem", line, op, id, m, state[id]); n_x++; }
+    if (ndealloc[id] != expdealloc[id]) { X("sig=%s line=%zu what=after %s object %d deallocated %d times, expected %d", stale[id] ? "reg-dealloc-stale" : stopped_touched[id] ? "reg-stopped" : raise_touched[id] ? "reg-dtor-raise" : "reg-final", line, op, id, ndealloc[id], expdealloc[id]); n_x++; expdealloc[id] = ndealloc[id]; }
   }
-  if (occ != gc->nitems || managed != gc->nitems) { X("sig=%s line=%zu what=after %s nitems=%zu occupied=%zu managed=%zu", dealloc_taint ? "reg-dealloc-stale" : strict_taint ? "reg-stopped" : "reg-count", line, op, gc->nitems, occ, managed); n_x++; }
+  if (occ != gc->nitems || managed != gc->nitems) { X("sig=%s line=%zu what=after %s nitems=%zu occupied=%zu managed=%zu", dealloc_taint ? "reg-dealloc-stale" : strict_taint ? "reg-stopped" : raise_taint ? "reg-dtor-raise" : "reg-count", line, op, gc->nitems, occ, managed); n_x++; }
   if (gc->nslots > 0 && empty == 0) { X("sig=reg-full line=%zu what=after %s no empty slot (nslots=%zu)", line, op, gc->nslots); n_x++; }
-  if (gc->freenum != 0 || gc->freelist != NULL) { X("sig=reg-pending line=%zu what=after %s pending list not released", line, op); n_x++; }
+  if (gc->freenum != 0 || gc->freelist != NULL) {
+    size_t waiting = 0; for (size_t i = 0; i < gc->freenum; i++) if (gc->freelist[i]) waiting++;
+    X("sig=%s line=%zu what=after %s pending list not released outside a collection: freenum=%zu, %zu objects still listed (not registered, not finalised)", raise_taint ? "reg-dtor-raise" : "reg-pending", line, op, (size_t)gc->freenum, waiting); n_x++;
+  }
 }
 
 /* ledger: `start` ids are being finalised now; their destructors delete managed objects (when running), transitively */
@@ -234,7 +255,45 @@ static void ledger_finalise_closure(int running) {
   }
 }
 
+/* ledger of an explicit deletion: the destructor of p runs its deletions in order (depth first), then the object is deallocated;
+   a destructor that raises ends everything that is running — nothing on the way up is deallocated.  Returns 1 when an exception
+   propagates. */
+static int ledger_fin_dfs(int p, int running) {
+  for (int k = 0; k < nkills[p]; k++) {
+    int y = kills[p][k];
+    if (running && state[y] == MANAGED) { state[y] = DEAD; if (ledger_fin_dfs(y, running)) return 1; }
+  }
+  if (raises[p]) return 1;
+  expdealloc[p]++;
+  return 0;
+}
+
+/* after an op whose release loop was left by an exception: what the ledger and the collector disagree on now is the finding's */
+static void raise_attribute(void) {
+  for (int id = 0; id <= maxid; id++) {
+    if (!id_known[id]) continue;
+    int m = mem(current(GC), addr_of(id)) ? 1 : 0;
+    if (m != (state[id] == MANAGED) || ndealloc[id] != expdealloc[id]) raise_touched[id] = 1;
+  }
+}
+
 static void emit(struct GC* gc, size_t line, const char* op, const char* res) {
+  static char* pendbuf = NULL; static size_t pendcap = 0;
+  if (op_raised && raise_taint) raise_attribute();
+  if (op_raised) res = "raised";
+  op_raised = 0;
+  if (gc->freenum) {       /* only after a release loop was left by an exception */
+    sb_reset();
+    for (size_t i = 0; i < gc->freenum; i++) {
+      uintptr_t p = (uintptr_t)gc->freelist[i];
+      if (!p) sb_add(i ? ",-" : "-");
+      else if (p >= ADDR0 && (p - ADDR0) % 8 == 0) sb_add(i ? ",%lld" : "%lld", (long long)((struct Probe*)p)->id);
+      else sb_add(i ? ",?%llu" : "?%llu", (unsigned long long)p);
+    }
+    const char* pl = list_or_digest(gc->freenum); size_t n = strlen(pl);
+    if (n + 8 > pendcap) { pendcap = n + 1024; pendbuf = realloc(pendbuf, pendcap); }
+    snprintf(pendbuf, pendcap, " pend=%s", pl);
+  } else { if (!pendbuf) { pendcap = 1024; pendbuf = malloc(pendcap); } pendbuf[0] = 0; }
   /* ledger follows the facts only through the oracle; the trace is printed for the model */
   sb_reset();
   for (size_t i = 0; i < ntrace; i++) sb_add(i ? ",%d" : "%d", trace[i]);
@@ -257,12 +316,12 @@ static void emit(struct GC* gc, size_t line, const char* op, const char* res) {
       sb_add(cnt ? ",%zu:%llu:%s:%d:%d" : "%zu:%llu:%s:%d:%d", i, (unsigned long long)(e->hash - 1), idb, e->root ? 1 : 0, e->marked ? 1 : 0);
       cnt++;
     }
-    O("%s %s fin=%s | n=%zu ni=%zu mi=%zu lo=%s hi=%s run=%d e=%s", op, res, finbuf, gc->nslots, gc->nitems, gc->mitems,
-      addr_str(gc->minptr, lo, sizeof lo), addr_str(gc->maxptr, hi, sizeof hi), gc->running ? 1 : 0, list_or_digest(cnt));
+    O("%s %s fin=%s | n=%zu ni=%zu mi=%zu lo=%s hi=%s run=%d e=%s%s", op, res, finbuf, gc->nslots, gc->nitems, gc->mitems,
+      addr_str(gc->minptr, lo, sizeof lo), addr_str(gc->maxptr, hi, sizeof hi), gc->running ? 1 : 0, list_or_digest(cnt), pendbuf);
     oracle(gc, line, op);
   } else {
-    O("%s %s fin=%s | n=%zu ni=%zu mi=%zu lo=%s hi=%s run=%d e=-", op, res, finbuf, gc->nslots, gc->nitems, gc->mitems,
-      addr_str(gc->minptr, lo, sizeof lo), addr_str(gc->maxptr, hi, sizeof hi), gc->running ? 1 : 0);
+    O("%s %s fin=%s | n=%zu ni=%zu mi=%zu lo=%s hi=%s run=%d e=-%s", op, res, finbuf, gc->nslots, gc->nitems, gc->mitems,
+      addr_str(gc->minptr, lo, sizeof lo), addr_str(gc->maxptr, hi, sizeof hi), gc->running ? 1 : 0, pendbuf);
   }
   ntrace = 0;
 }
@@ -334,7 +393,9 @@ static void aborted(struct GC* gc, size_t line, const char* op, var exc) {
   fflush(stdout);
   _exit(0);
 }
-#define GUARD(gc, line, op, stmt) do { var exc_; V_TRY(exc_, stmt); if (exc_) aborted(gc, line, op, exc_); } while (0)
+/* an IOError thrown by a probe destructor armed with `killraise` is an observation (`O <op> raised …`), anything else aborts */
+#define GUARD(gc, line, op, stmt) do { var exc_; size_t th_ = n_thrown; op_raised = 0; V_TRY(exc_, stmt); \
+    if (exc_) { if (exc_ == IOError && n_thrown > th_) op_raised = 1; else aborted(gc, line, op, exc_); } } while (0)
 
 /* tnewx: called from every realloc of the library while armed; fires on the first statement of GC_Sweep */
 static struct GC* hook_gc; static char* hook_listed; static int hook_new_id; static size_t hook_line; static int hook_fired;
@@ -457,7 +518,7 @@ int main(int argc, char** argv) {
         probe_result = 0; stale_clear();
       }
       for (size_t k = 0; k <= na - 2; k++) heldx[k] = NULL;
-      if (p != addr_of(id)) { X("sig=reg-harness line=%zu what=allocation did not use the probe allocator", line); n_x++; }
+      if (p != addr_of(id) && !op_raised) { X("sig=reg-harness line=%zu what=allocation did not use the probe allocator", line); n_x++; }
       if (running && hook_fired != 1) { X("sig=reg-harness line=%zu what=the hook between GC_Mark and GC_Sweep fired %d times", line, hook_fired); n_x++; }
       if (!running && strict) { state[id] = MANAGED; rootflag[id] = 0; stopped_touched[id] = 1; strict_taint = 1; }
       else if (!running) { state[id] = UNMANAGED; rootflag[id] = 0; }
@@ -465,14 +526,17 @@ int main(int argc, char** argv) {
     } else if ((!strcmp(op, "del") || !strcmp(op, "delroot")) && na == 1) {
       int id = args[0];
       if (id >= MAXID || !id_known[id]) { O("bad-op"); continue; }
-      if (gc->running && state[id] == MANAGED) { state[id] = DEAD; expdealloc[id]++; nwork = 0; work[nwork++] = id; ledger_finalise_closure(1); }
+      if (gc->running && state[id] == MANAGED) { state[id] = DEAD; ledger_fin_dfs(id, 1); }
       else if (!gc->running && strict && state[id] == MANAGED) { state[id] = DEAD; stopped_touched[id] = 1; strict_taint = 1; }   /* deleted, says the property text; never finalised (C06's F23) */
       if (!strcmp(op, "del")) GUARD(gc, line, op, del(addr_of(id))); else GUARD(gc, line, op, del_root(addr_of(id)));
       emit(gc, line, op, "ok");
-    } else if (!strcmp(op, "delraw") && na == 1) {
+    } else if ((!strcmp(op, "delraw") || !strcmp(op, "delrawm")) && na == 1) {
       int id = args[0];
-      if (id >= MAXID || !id_known[id] || state[id] != UNMANAGED) { O("bad-op"); continue; }
-      state[id] = DEAD; expdealloc[id]++; nwork = 0; work[nwork++] = id; ledger_finalise_closure(gc->running);
+      /* delraw: an object the collector does not know; delrawm (witness only): a REGISTERED object */
+      if (id >= MAXID || !id_known[id] || state[id] != (op[6] ? MANAGED : UNMANAGED)) { O("bad-op"); continue; }
+      /* del_raw = dealloc(destruct(self)) without GC_Rem: for a registered object this is KF-C17-dealloc-stale by another entrance (witness only) */
+      if (state[id] == MANAGED || mem(current(GC), addr_of(id))) { stale[id] = 1; dealloc_taint = 1; }
+      state[id] = DEAD; ledger_fin_dfs(id, gc->running);
       GUARD(gc, line, op, del_raw(addr_of(id)));
       emit(gc, line, op, "ok");
     } else if (!strcmp(op, "delnull") && na == 0) {
@@ -550,16 +614,20 @@ int main(int argc, char** argv) {
     } else if (!strcmp(op, "unkill") && na == 1) {
       int a = args[0];
       if (a >= MAXID || !id_known[a]) { O("bad-op"); continue; }
-      nkills[a] = 0; killnull[a] = 0; O("unkill %d", a);
+      nkills[a] = 0; killnull[a] = 0; raises[a] = 0; O("unkill %d", a);
     } else if (!strcmp(op, "killnull") && na == 1) {
       int a = args[0];
       if (a >= MAXID || !id_known[a]) { O("bad-op"); continue; }
       killnull[a] = 1; O("killnull %d", a);
+    } else if (!strcmp(op, "killraise") && na == 1) {
+      int a = args[0];
+      if (a >= MAXID || !id_known[a]) { O("bad-op"); continue; }
+      raises[a] = 1; O("killraise %d", a);
     } else if (!strcmp(op, "strict") && na == 0) {
       strict = 1; O("strict");
     } else O("bad-op");
   }
-  I("ops=%zu dumps=%zu oracle_failures=%zu max_slots=%zu max_probe_distance=%zu wrapped_entries_seen=%zu del_null_during_sweep=%zu gc_mark_probes_clear=%zu gc_mark_probes_stale=%zu", n_ops, n_dumps, n_x, max_slots, max_dist, n_wrapped, n_null_in_sweep, n_probe_clear, n_probe_set);
+  I("ops=%zu dumps=%zu oracle_failures=%zu max_slots=%zu max_probe_distance=%zu wrapped_entries_seen=%zu del_null_during_sweep=%zu gc_mark_probes_clear=%zu gc_mark_probes_stale=%zu destructor_raises=%zu destructor_raises_in_release_loop=%zu", n_ops, n_dumps, n_x, max_slots, max_dist, n_wrapped, n_null_in_sweep, n_probe_clear, n_probe_set, n_thrown, n_thrown_in_sweep);
   kills_enabled = 0;   /* teardown (Cello_Exit sweeps what is left) runs plain destructors */
   return 0;
 }
